@@ -27,7 +27,10 @@ func lookupFlow[T any](urlTree *URLTree[T], url string) lookupFlowNodeResult[T] 
 	var part urlPart
 	for _, part = range splitURL {
 		log.Trace().Msgf("lookupFlowNodeResult::Looking up part %v", part)
-		if currentNode.WildcardChild != nil && currentNode.WildcardChild.hasValue() {
+		// A wildcard written in the path (`host.com/*`) covers path segments only: it must not
+		// take a further host label (`host.com.other`) for a path segment.
+		if currentNode.WildcardChild != nil && currentNode.WildcardChild.hasValue() &&
+			!isHostLabelBehindPathWildcard(currentNode, part) {
 			flows = append(flows, *currentNode.WildcardChild.Value)
 		}
 
